@@ -3,6 +3,7 @@ mod engine;
 mod paths;
 mod sim;
 mod syn;
+mod tot;
 mod tape;
 mod util;
 
@@ -15,6 +16,13 @@ fn make_check(id: &str) -> Option<Box<dyn Check>> {
     }
     if let Some(c) = syn::checks::syn_check(id) {
         return Some(Box::new(c));
+    }
+    match id {
+        "C12" => return Some(Box::new(tot::c12::C12 { dir_ready: false })),
+        "C13" => return Some(Box::new(tot::c13::C13)),
+        "C15" => return Some(Box::new(tot::c15::C15)),
+        "C20" => return Some(Box::new(tot::c20::C20)),
+        _ => {}
     }
     if id == "C07" {
         return Some(Box::new(sim::crash::CrashCheck::new()));
